@@ -77,8 +77,25 @@ func genEmuConfig(r *rand.Rand) procdrv.EmuConfig {
 		nb[i] = "ABCDEFGHIJKLMNOPQRSTUVWXYZabcdefghijklmnopqrstuvwxyz0123456789-."[r.Intn(64)]
 	}
 	c.GnbName = string(nb)
+	switch r.Intn(8) {
+	case 0: // blanks at the edges are characters of the name (PrintableString admits the space)
+		c.GnbName = " " + c.GnbName
+	case 1:
+		c.GnbName = c.GnbName + " "
+	case 2:
+		c.GnbName = "  " + c.GnbName + "  "
+	}
+	if len(c.GnbName) > 150 {
+		c.GnbName = c.GnbName[:150]
+	}
+	if r.Intn(12) == 0 { // the values the library's builders carry as built-in defaults: a configured value equal to a default is still configured
+		c.GnbID, c.GnbBits = []byte{0x45, 0x46, 0x47}, 24
+	}
 	c.SST = int32(1 + r.Intn(255))
 	c.SD = sdString(r)
+	if r.Intn(10) == 0 {
+		c.SST, c.SD = 1, "010203" // the builders' default slice
+	}
 	c.GnbGTP = pick(r, net.IP(rbytes(r, 4)), ipv4Class(r)).String()
 	c.AmfIP, c.StgIP = "192.0.2."+fmt.Sprint(1+r.Intn(250)), "192.0.2."+fmt.Sprint(1+r.Intn(250))
 	c.AmfPort, c.StgPort = 1024+r.Intn(60000), 1024+r.Intn(60000)
@@ -114,6 +131,7 @@ func genChoices(r *rand.Rand, nUE int) refamf.Choices {
 	ch.TEIDBase = pick(r, uint32(0), 1, 1<<31, 1<<32-16, r.Uint32())
 	ch.WithAMBR = r.Intn(2) == 0
 	ch.BackupAMFName = r.Intn(3) == 0
+	ch.AfterRegMsg = pick(r, 0, 0, 0, 1, 2, 3)
 	return ch
 }
 
